@@ -7,8 +7,8 @@ PID = 'C13'
 GENS = ['vpk']
 DRIVERS = ['drv_c13']
 PROPS = 'Srctools.Props.C13'
-RULE = ("a case = (directory|single-file archive, history of <= 25 operations open(r/w/a, dir_data_limit)/new_file/add_file/"
-        "FileInfo.write/del/write_dirfile/contains/check, on real temp folders). Sizes from {0,1,15,16,17,1023,1024,1025,65535,"
+RULE = ("a case = (directory|single-file archive, history of <= 25 operations open(r/w/a, dir_data_limit)+__enter__/new_file/add_file/"
+        "FileInfo.write/del/write_dirfile/__exit__(normal|exception)/contains/check, on real temp folders). Sizes from {0,1,15,16,17,1023,1024,1025,65535,"
         "65536,307207} plus random 0..2100, limits {None,0,16,1024}, archive indexes {None,0,1,7}, names from an ASCII+surrogateescape "
         "pool with empty folder/name/extension parts in the three spellings (and unnormalised folder spellings), CRC-32-colliding "
         "overwrites and non-empty payloads with CRC 0, rejected non-ASCII names. Systematic grids: every (single, limit, index, size) "
@@ -39,7 +39,8 @@ LEVEL_TEXT = ("Lean theorems about the executable model of vpk.py, for an arbitr
               "history of open r/w/a, new_file, add_file, write, del, write_dirfile, contains on directory and single-file archives the "
               "per-operation results, the listing and every read() equal those of the specification name -> bytes, and verify_all is true - "
               "after every prefix, hence after every reopen), C13_names (string, 2-tuple and 3-tuple spellings give the same triple), "
-              "C13_readonly (mode r: every mutator is an error and neither the handle nor the disk changes), C13_fits_of_size / C13_refine_sized "
+              "C13_readonly (mode r: every mutator is an error and neither the handle nor the disk changes), C13_exit (__exit__ after an exception "
+              "changes nothing, after a normal end of a writable with-block it is write_dirfile; exit is an operation of the refinement histories), C13_fits_of_size / C13_refine_sized "
               "(the no-struct.error hypothesis is derived from a decidable size budget of the history, so the refinement holds under static "
               "hypotheses only), C13_verify_all_iff (verify_all is false exactly when some readable file's checksum differs from the stored "
               "one), C13_dir_v2 (version-2 headers are read with the same tree), C13_gen_ok (constants, struct "
